@@ -40,7 +40,7 @@ Cases == {Leaf(k, n) : k \in {"file", "mbox"}, n \in Names1} \cup {Leaf(k, n) : 
          \cup {Leaf("maildir", n) : n \in Names1}
          \cup {Leaf("mapfile", n) : n \in Names1}                                  \* named map file in the root ...
          \cup {Cont("dir", n, "mapfile", "in") : n \in Names1}                      \* ... and one level down
-         \cup {Cont("dir", "a", "mapfile", m) : m \in Inner}
+         \cup {Cont("dir", "a", "mapfile", m) : m \in {x \in Inner : MapOk(x)}}
          \cup {Cont(k, n, ik, m) : k \in {"dir", "zip"}, n \in Names1, ik \in {"file", "dir"}, m \in Inner}
          \cup {Cont("mapdir", n, ik, m) : n \in Names1, ik \in {"file", "dir"}, m \in {x \in Inner : MapOk(x)}}
          \cup {Leaf("deep", n) : n \in DeepNames}                                   \* the selector-LENGTH dimension
